@@ -252,11 +252,68 @@ impl Span {
     }
 }
 
-#[derive(Debug, Clone, PartialEq)]
+#[derive(Debug)]
 pub(crate) enum SpanInfo {
     Prim(Span),
     Cons(Span, Box<[SpanInfo; 2]>),
     Vec(Span, Vec<SpanInfo>),
+}
+
+// The span information of a list mirrors its chain of cons cells: one `SpanInfo::Cons` per cell,
+// nested through the second array element. `Clone`, `PartialEq` and `Drop` follow that chain in a
+// loop, so that their stack use does not grow with the length of the list.
+impl Clone for SpanInfo {
+    fn clone(&self) -> Self {
+        // collect the chain of cells, then rebuild it from the tail
+        let mut chain: Vec<(Span, SpanInfo)> = Vec::new();
+        let mut cursor = self;
+        let mut acc = loop {
+            match cursor {
+                SpanInfo::Cons(span, cells) => {
+                    chain.push((*span, cells[0].clone()));
+                    cursor = &cells[1];
+                }
+                SpanInfo::Prim(span) => break SpanInfo::Prim(*span),
+                SpanInfo::Vec(span, elements) => break SpanInfo::Vec(*span, elements.clone()),
+            }
+        };
+        while let Some((span, car)) = chain.pop() {
+            acc = SpanInfo::Cons(span, Box::new([car, acc]));
+        }
+        acc
+    }
+}
+
+impl PartialEq for SpanInfo {
+    fn eq(&self, other: &SpanInfo) -> bool {
+        let (mut a, mut b) = (self, other);
+        loop {
+            match (a, b) {
+                (SpanInfo::Cons(x, xs), SpanInfo::Cons(y, ys)) => {
+                    if x != y || xs[0] != ys[0] {
+                        return false;
+                    }
+                    a = &xs[1];
+                    b = &ys[1];
+                }
+                (SpanInfo::Prim(x), SpanInfo::Prim(y)) => return x == y,
+                (SpanInfo::Vec(x, xs), SpanInfo::Vec(y, ys)) => return x == y && xs == ys,
+                _ => return false,
+            }
+        }
+    }
+}
+
+impl Drop for SpanInfo {
+    fn drop(&mut self) {
+        if let SpanInfo::Cons(_, cells) = self {
+            let mut next = std::mem::replace(&mut cells[1], SpanInfo::Prim(Span::empty()));
+            while let SpanInfo::Cons(_, cells) = &mut next {
+                let after = std::mem::replace(&mut cells[1], SpanInfo::Prim(Span::empty()));
+                next = after;
+            }
+        }
+    }
 }
 
 impl SpanInfo {
